@@ -41,6 +41,7 @@ Proof.
   - apply forallb_upd; [exact N|]. unfold collect_job. destruct (st_eqb (jstat j0) RUNNING); reflexivity.
   - apply forallb_upd; [exact N|]. unfold alive. cbn. rewrite E0. reflexivity.
   - apply forallb_upd; [exact N|]. unfold alive. cbn. rewrite E0. reflexivity.
+  - exfalso. pose proof (forallb_nth _ _ _ _ N E) as A. unfold alive in A. rewrite E0 in A. discriminate A.
   - apply forallb_upd; [exact N|]. pose proof (forallb_nth _ _ _ _ N E) as A. exact A.
 Qed.
 
@@ -89,6 +90,7 @@ Proof.
     + destruct (st_eqb (jstat j1) RUNNING); cbn [proj]; rewrite ?(Nat.eqb_sym j j0), ?Ej; reflexivity.
   - unfold abs_job. cbn. rewrite P. cbn. match goal with Hs : jstarted _ = false |- _ => rewrite Hs end. reflexivity.
   - unfold abs_job. cbn. rewrite P. cbn. match goal with Hs : jstarted _ = false |- _ => rewrite Hs end. reflexivity.
+  - (* a killed job: excluded here *) exfalso. match goal with Hp : jph _ = TKilled |- _ => rewrite Hp in A end. discriminate A.
   - unfold abs_job. cbn. rewrite H, H0. cbn. destruct (jstat j1); reflexivity.
   - assert (S : jstat j1 = RUNNING \/ jstat j1 = CANCELLING).
     { destruct (jph j1); try discriminate A; auto.
